@@ -32,6 +32,7 @@ PRIORITY = {
     'opts.py': ['C09', 'C03', 'C08', 'C11', 'C16'],
 }
 ALL = ['C%02d' % i for i in range(1, 21)]
+OPS2 = False      # second operator family (--ops2): variable replacement, argument swap, dropped keyword, emptied else, …
 CMP = {'==': '!=', '!=': '==', '<': '<=', '<=': '<', '>': '>=', '>=': '>', 'in': 'not in', 'not in': 'in', 'is': 'is not',
        'is not': 'is'}
 METHODS = {'lstrip': 'strip', 'rstrip': 'strip', 'strip': 'lstrip', 'startswith': 'endswith', 'endswith': 'startswith',
@@ -190,6 +191,67 @@ def mutants_of(path):
                 continue
             a, b = span(node)
             add('delete statement: %s' % src.seg(a, b)[:60], node.lineno, src.replace(a, b, 'pass'))
+    if OPS2:
+        out = []
+        for fn in [n for n in ast.walk(tree) if isinstance(n, (ast.FunctionDef, ast.AsyncFunctionDef))]:
+            # names bound in this function (parameters and assignment targets)
+            bound = [a.arg for a in fn.args.args + fn.args.kwonlyargs if a.arg not in ('self', 'cls')]
+            for n in ast.walk(fn):
+                if isinstance(n, ast.Name) and isinstance(n.ctx, ast.Store) and n.id not in bound:
+                    bound.append(n.id)
+            for n in ast.walk(fn):
+                # (1) a variable read replaced by another variable of the same function
+                if isinstance(n, ast.Name) and isinstance(n.ctx, ast.Load) and n.id in bound:
+                    a, b = span(n)
+                    alts = [x for x in bound if x != n.id][:2]
+                    for alt in alts:
+                        add('variable %s -> %s' % (n.id, alt), n.lineno, src.replace(a, b, alt))
+                # (2) the first two positional arguments of a call swapped; (3) a keyword argument dropped
+                if isinstance(n, ast.Call):
+                    if len(n.args) >= 2 and not any(isinstance(x, ast.Starred) for x in n.args[:2]):
+                        a0, b0 = span(n.args[0])
+                        a1, b1 = span(n.args[1])
+                        t = src.seg(a0, b0), src.seg(a1, b1)
+                        if t[0] != t[1]:
+                            add('swap arguments of %s' % src.seg(*span(n.func))[:30], n.lineno,
+                                (src.bytes[:a0] + t[1].encode() + src.bytes[b0:a1] + t[0].encode() + src.bytes[b1:]).decode())
+                    for kw in n.keywords:
+                        if kw.arg is None:
+                            continue
+                        ka, kb = span(kw.value)
+                        # from the keyword name to the end of its value, plus a following or preceding comma
+                        start = src.bytes.rfind(kw.arg.encode(), 0, ka)
+                        end = kb
+                        rest = src.bytes[end:end + 40].decode('utf-8', 'replace')
+                        m = re.match(r'\s*,\s*', rest)
+                        if m:
+                            end += len(m.group(0).encode())
+                        else:
+                            pre = src.bytes[max(0, start - 40):start].decode('utf-8', 'replace')
+                            m2 = re.search(r',\s*$', pre)
+                            if m2:
+                                start -= len(m2.group(0).encode())
+                        add('drop keyword argument %s=' % kw.arg, n.lineno, src.replace(start, end, ''))
+                # (4) an else / elif branch emptied; (5) the bodies of if and else exchanged is covered by negation
+                if isinstance(n, ast.If) and n.orelse and not (len(n.orelse) == 1 and isinstance(n.orelse[0], ast.If)):
+                    first, last = n.orelse[0], n.orelse[-1]
+                    a = src.pos(first.lineno, first.col_offset)
+                    b = src.pos(last.end_lineno, last.end_col_offset)
+                    add('empty else branch', first.lineno, src.replace(a, b, 'pass'))
+                if isinstance(n, (ast.For, ast.While)) and len(n.body) >= 1:
+                    # (6) a loop body's last statement dropped (when it has several)
+                    if len(n.body) >= 2 and n.body[-1].lineno == n.body[-1].end_lineno:
+                        a, b = span(n.body[-1])
+                        add('drop last statement of loop body', n.body[-1].lineno, src.replace(a, b, 'pass'))
+                # (7) an element removed from a tuple / list / set display of constants or names (>= 2 elements)
+                if isinstance(n, (ast.Tuple, ast.List, ast.Set)) and len(n.elts) >= 2 and isinstance(getattr(n, 'ctx', ast.Load()), ast.Load):
+                    for i, e in enumerate(n.elts[:3]):
+                        ea, eb = span(e)
+                        rest = src.bytes[eb:eb + 40].decode('utf-8', 'replace')
+                        m = re.match(r'\s*,\s*', rest)
+                        if m:
+                            add('drop element %d of a display' % i, n.lineno, src.replace(ea, eb + len(m.group(0).encode()), ''))
+                # (8) a subscript index / dict key string changed to a sibling constant is covered by constants
     # de-duplicate
     seen, uniq = set(), []
     for d, ln, t in out:
@@ -265,13 +327,16 @@ def main():
             workers = int(args.pop(0))
         elif a == '--limit':
             limit = int(args.pop(0))
+        elif a == '--ops2':
+            global OPS2
+            OPS2 = True
         elif a == '--recheck':      # only the survivors recorded as undetected / correspondence-only in MUTANTS.json
             recheck = True
     items = []
     for f in files:
         ms = mutants_of(os.path.join('/repo/oslo_policy', f))
         for i, (d, ln, t) in enumerate(ms):
-            items.append(('%s:%d:%d' % (f, ln, i), f, d, ln, t))
+            items.append(('%s%s:%d:%d' % ('ops2/' if OPS2 else '', f, ln, i), f, d, ln, t))
     if recheck:
         old = json.load(open('/verif/seeded/MUTANTS.json'))
         want = {k for k, v in old.items() if v.get('verdict') in ('undetected', 'correspondence')}
